@@ -237,7 +237,13 @@ def main(tier: str) -> int:
             parses += agree_on_bytes(run, key, dict(rp, hex=data.hex()), data, True, arbiter=stmts)
             if len(samples) < 3:
                 samples.append({"key": key, "statements": [repr(s) for s in stmts[:2]], "bytes": len(data)})
+    from .. import usage  # noqa: PLC0415
+
+    ul = usage.read_lattice(run)
+    parses += ul["read_lattice_parses"]
+    gen_states += ul["tlc_states"]
     return run.finish({
+        "usage_lattice": ul,
         "states": gen_states, "transitions": gen_states, "traces_validated_against_impl": streams, "samples": samples, "exhaustive": False,
         "streams": streams, "parses": parses, "serializer_pairs_compared": identical, "streams_through_usage_variants": USAGE[0],
         "explanation": "TLC-generated RDF 1.1 streams (JellyProducer: arbitrary legal choices; PyWriter behaviours through the real serializers) are parsed through all six "
